@@ -17,7 +17,9 @@ RULE = (
     "phi_k(x[idx_k]) and m dense / pass-through uses psi_m(x), k,m in 0..4, in a drawn order and association tree; expected "
     "gradient = sum of the per-use dense gradients from the scatter model and closed-form phi', psi'. Non-trivial = an index "
     "with a repeated position, a mask, a mixed advanced/basic tuple, or (programs) >=1 sparse and >=1 dense use; distinct by "
-    "(shape, index expression) / program."
+    "(shape, index expression) / program. Reassemble: 2-4 pieces selected by indexing (empty slices, all-False masks, empty / repeated "
+    "integer lists, strides), scaled, re-assembled by concatenate / hstack / append in a drawn arrangement that may use a piece several "
+    "times; the scatter model gives the source position of every output slot (vjp == bincount, jvp == the same arrangement of the tangent)."
 )
 
 
@@ -360,6 +362,113 @@ def mixing_body(c):
     return ok(nontrivial=n_sparse >= 1 and n_dense >= 1, key=json.dumps(sample, default=repr), labels=labels, sample=sample)
 
 
+def reassemble_body(c):
+    """Pieces selected by indexing (slices incl. empty ones, masks incl. all-False, integer lists incl. empty / repeated entries), scaled,
+    and re-assembled by concatenate / hstack / append in a drawn arrangement that may use one piece several times (y, z, y).  The scatter
+    model says which input position every output slot came from: vjp == bincount, jvp == the same arrangement of the tangent."""
+    import autograd
+    import autograd.numpy as anp
+
+    n = c.int(3, 7)
+    cols = c.choice([0, 0, 2])
+    shape = (n,) if not cols else (n, cols)
+    vseed = c.seed()
+    x0 = values.generic(vseed, [shape], -1.5, 1.5)[0][0]
+    npieces = c.int(2, 4)
+    sels, descs = [], []
+    for _ in range(npieces):
+        k = c.int(0, 5)
+        if k == 0:
+            lo = c.int(0, n)
+            hi = c.int(lo, n) if c.chance(2, 3) else lo  # lo == hi: an empty slice
+            sel, d = slice(lo, hi), f"{lo}:{hi}"
+        elif k == 1:
+            lo = c.int(0, n + 1)
+            sel, d = slice(lo, None), f"{lo}:"
+        elif k == 2:
+            bits = [c.bool() and not c.chance(1, 4) for _ in range(n)]
+            if c.chance(1, 5):
+                bits = [False] * n
+            sel, d = onp.array(bits, dtype=bool), "mask" + "".join("1" if b_ else "0" for b_ in bits)
+        elif k == 3:
+            m = c.int(0, 3)
+            idx = [c.int(-n, n - 1) for _ in range(m)]
+            sel, d = onp.array(idx, dtype=int), f"ints{idx}"
+        elif k == 4:
+            st = c.choice([-1, 2, -2])
+            sel, d = slice(None, None, st), f"::{st}"
+        else:
+            i = c.int(-n, n - 1)
+            sel, d = slice(i, i + 1) if i != -1 else slice(i, None), f"[{i}] kept as a length-1 piece"
+        sels.append(sel)
+        descs.append(d)
+    arrangement = [c.int(0, npieces - 1) for _ in range(c.int(2, 5))]
+    how = c.choice(["concatenate_list", "concatenate_tuple", "axis_kw", "axis_neg", "hstack", "append"])
+    if cols and how == "hstack":
+        how = "concatenate_list"
+    scales = [1.0 + 0.5 * i for i in range(npieces)]
+    sample = {"shape": list(shape), "pieces": descs, "arrangement": arrangement, "how": how, "vseed": vseed}
+    bucket = lambda k: f"C11|reassemble|{k}"
+
+    def build(np_, x):
+        ps = [x[s_] * k_ for s_, k_ in zip(sels, scales)]
+        seq = [ps[i] for i in arrangement]
+        if how == "concatenate_list":
+            return np_.concatenate(seq)
+        if how == "concatenate_tuple":
+            return np_.concatenate(tuple(seq), 0)
+        if how == "axis_kw":
+            return np_.concatenate(seq, axis=0)
+        if how == "axis_neg":
+            return np_.concatenate(seq, axis=-len(shape))
+        if how == "hstack":
+            return np_.hstack(seq)
+        out = seq[0]
+        for p_ in seq[1:]:
+            out = np_.append(out, p_, axis=0)
+        return out
+
+    try:
+        y_ref = build(onp, x0)
+        pos = build(onp, onp.arange(x0.size, dtype=float).reshape(shape))  # scaled positions: divide the scale out again below
+    except Exception as e:
+        return Outcome("numpy_rejects", detail=str(e)[:100], sample=sample)
+    if y_ref.size == 0:
+        return Outcome("numpy_rejects", detail="empty result", sample=sample)
+    slot_scale = build(onp, onp.ones(shape))
+    src = onp.rint(pos / slot_scale).astype(int)
+    g = values.direction(vseed, y_ref.shape, 3)
+    want = onp.bincount(src.ravel(), weights=(g * slot_scale).ravel(), minlength=x0.size).reshape(shape)
+    v = values.direction(vseed, shape, 4)
+    f = lambda x: build(anp, x)
+    try:
+        vjp, y = autograd.make_vjp(f)(x0)
+        got = onp.asarray(vjp(g))
+        got2 = onp.asarray(autograd.grad(lambda x: anp.sum(f(x) * g))(x0))
+    except Exception as e:
+        if not from_autograd(e):
+            raise
+        return fail("unexpected_exception", describe_exc(e), bucket("exception"), sample=sample)
+    if onp.shape(y) != y_ref.shape or not onp.array_equal(onp.asarray(y), y_ref):
+        return fail("primal_mismatch", "value differs from NumPy's", bucket("primal"), sample=sample)
+    for nm, r in (("make_vjp", got), ("grad", got2)):
+        if r.shape != want.shape or not onp.allclose(r, want, rtol=1e-12, atol=1e-12):
+            return fail("wrong_value", f"{nm}: gradient {r.tolist()} but the scatter model gives {want.tolist()}", bucket("wrong_value"), sample=sample)
+    try:
+        t = onp.asarray(autograd.make_jvp(f)(x0)(v)[1])
+        want_t = build(onp, v)
+        if t.shape != want_t.shape or not onp.allclose(t, want_t, rtol=1e-12, atol=1e-12):
+            return fail("wrong_value", f"forward mode: tangent {t.tolist()} expected {want_t.tolist()}", bucket("fwd_wrong_value"), sample=sample)
+    except Exception as e:
+        if not _missing(e):
+            return fail("unexpected_exception", "forward: " + describe_exc(e), bucket("fwd_exception"), sample=sample)
+    empties = sum(1 for i in arrangement if onp.size(onp.arange(n)[sels[i]]) == 0)
+    repeats = len(arrangement) - len(set(arrangement))
+    c.features.update(how=how, empties=empties, repeats=repeats)
+    return ok(nontrivial=bool(empties or repeats), key=json.dumps(sample), labels=["how=" + how] + (["empty_piece"] if empties else []) + (["piece_reused"] if repeats else []),
+              sample=sample)
+
+
 def finalize(agg):
     return {}
 
@@ -367,6 +476,7 @@ def finalize(agg):
 PROP = Prop("C11", [
     Test("index", index_body, quick=4000, thorough=60000, shard_size=400),
     Test("mixing", mixing_body, quick=1500, thorough=20000, shard_size=200),
+    Test("reassemble", reassemble_body, quick=2500, thorough=20000, shard_size=250),
 ], RULE, assumptions=[
     "NumPy's own indexing applied to arange(size) identifies the selected positions (the scatter model)",
 ])
